@@ -25,7 +25,7 @@ ASSUMPTIONS = [
 BUDGET = {"quick": 70, "thorough": 800}
 ROUNDS = {"thorough": 10}
 FLOORS = {"overlay.C06.judged": {"quick": 100, "thorough": 1500}, "overlay.C06.branch_lengths_judged": {"quick": 100, "thorough": 1500}, "validity_checks": {"quick": 1500, "thorough": 15000}, "round_trips_single": 300, "round_trips_batched": 300,
-          "moves": 200, "moves_smooth_max": 20, "api_inplace_updates": 100, "float32_default_checks": 40, "postorder_option_checks": 20, "heterochronous": 300}
+          "moves": 200, "moves_smooth_max": 20, "smooth_max_round_trips": 40, "keep_branch_lengths_checks": 100, "keep_kinds": 3, "api_inplace_updates": 100, "float32_default_checks": 40, "postorder_option_checks": 20, "heterochronous": 300}
 
 
 def EXHAUSTIVE(tier):
@@ -58,6 +58,13 @@ def _cases(tier, seed):
                 c["float32_default"] = True
             if c["move"] != "none" and param == "shift" and (j // 15) % 2 == 0:
                 c["smooth_k"] = float(np.round(rng.uniform(2.0, 60.0), 3))
+            if batch == 0 and j % 24 in (2, 15):
+                # parameters initialised from the branch lengths of the Newick (keep_branch_lengths): a clock-like tree consistent with the
+                # dates, the same with lengths rounded to three decimals, or a tree that is not clock-like at all (an ML / NJ start tree)
+                c["keep"] = ["clock", "rounded", "nonclock"][(j // 24) % 3]
+                c["keep_seed"] = int(rng.integers(2**31))
+            if param == "shift" and j % 5 == 1:
+                c["smooth_rt"] = float([0.4, 1.0, 2.5, 10.0, 0.05][(j // 5) % 5])
             out.append(c)
             j += 1
     return out
@@ -172,6 +179,8 @@ def _run_case(case):
                 V.append(tt.viol("C06:tip-not-at-sampling-time:use_postorder_indices", "with use_postorder_indices the tip %s (node index %d) sits at height %.9g, its sampling time is %.9g" % (nd.taxon.label, nd.index, got, want[nd.taxon.label]), case=case))
                 break
         return {"violations": V, "counters": C, "fingerprint": None, "sample": None}
+    if case.get("keep"):
+        return _run_keep(case, V, C)
     objs, dic = tt.load([phylo.taxa_json(case), gt.tree_json(case)])
     tree = dic["tree"]
     kind0 = type(tree.transform).__name__
@@ -228,6 +237,33 @@ def _run_case(case):
         # ratios near 0/1 amplify round-off in the inverse: judged relative to the conditioning
         if not ok:
             V.append(tt.viol("C06:inverse:%s:%s" % (tag, "batched" if B else "single"), "inv(forward(x)) != x (%s; batch %s, %d taxa)" % (detail, B or "[]", n), case=case))
+    # the increment parameterisation with a smooth maximum of temperature k: still a valid tree, still invertible
+    if case["param"] == "shift" and case.get("smooth_rt") and not V:
+        from torchtree.evolution.tree_height_transform import DifferenceNodeHeightTransform
+
+        k = float(case["smooth_rt"])
+        tr = DifferenceNodeHeightTransform(tree, k)
+        xs = dic["tree.shifts"].tensor.detach().clone()
+        hs = tr(xs)
+        back = tt.as_np(tr.inv(hs), "C06:not-a-tensor:" + tag, "transform.inv")
+        C["smooth_max_round_trips"] = 1
+        hs_np = tt.as_np(hs, "C06:not-a-tensor:" + tag, "transform()").astype(float)
+        x_np = xs.numpy()
+        tolk = 1e-10 * max(1.0, float(np.abs(hs_np).max()))
+        if back.shape != x_np.shape or not np.all(np.isfinite(back)) or np.abs(back - x_np).max() > tolk:
+            V.append(tt.viol("C06:inverse:shift-smooth-max", "smooth maximum with k=%g: inv(forward(x)) != x (max abs err %.3g, %d taxa, batch %s)" % (
+                k, float(np.abs(back - x_np).max()) if back.shape == x_np.shape else float("nan"), n, B or "[]"), case=case))
+        else:
+            # valid tree: every internal node at or above its children (the smooth maximum is an upper bound of the maximum)
+            th = np.asarray(phylo.tip_heights(case), dtype=float)
+            for r in (range(B) if B else [None]):
+                root, _ = gt.ref_heights(case, r)
+                row = hs_np if r is None else hs_np[r]
+                full = np.concatenate([th, row])
+                bad = [(nd.idx, c.idx) for nd in rt.postorder(root) if not nd.is_leaf() for c in nd.children if full[c.idx] > full[nd.idx] + 1e-12 * max(1.0, abs(full[nd.idx]))]
+                if bad:
+                    V.append(tt.viol("C06:parent-younger-than-child:shift-smooth-max", "smooth maximum with k=%g: node %d is younger than its child %d" % (k, bad[0][0], bad[0][1]), case=case))
+                    break
     # dtype / device moves keep the parameterisation in force
     mv = case["move"]
     if mv != "none" and case.get("smooth_k") and case["param"] == "shift" and not V:
@@ -296,6 +332,58 @@ def _run_case(case):
         fp = "%s|%s|%s|%s|%s" % (case["newick"], case["dates_mode"], tag, B, mv)
     sample = {k: case[k] for k in ("newick", "names", "dates", "param", "batch", "move")} if n <= 6 else None
     return {"violations": V, "counters": C, "fingerprint": fp, "sample": sample}
+
+
+def _run_keep(case, V, C):
+    """keep_branch_lengths: the parameters are computed by the library from the Newick's branch lengths.  Whatever the lengths, the
+    result is a valid time tree with its parameters inside their domain; for lengths consistent with the dates it is that very tree."""
+    import copy
+
+    n = len(case["names"])
+    tag = case["param"]
+    krng = np.random.default_rng(case["keep_seed"])
+    root, href = gt.ref_heights(case, None)  # heights of the generated parameter values: the clock-like tree
+    for nd in rt.postorder(root):
+        if nd.parent is not None:
+            nd.length = float(href[nd.parent.idx] - href[nd.idx])
+            if case["keep"] == "rounded":
+                nd.length = max(0.001, round(nd.length, 3))
+            elif case["keep"] == "nonclock":
+                nd.length = float(krng.exponential(0.3)) + 1e-4
+    tj = gt.tree_json(case)
+    tj["newick"] = rt.to_newick(root)
+    tj["keep_branch_lengths"] = True
+    for key in ("ratios", "root_height", "shifts"):
+        if key in tj:  # placeholders: the values come from the Newick
+            tj[key] = dict(tj[key], tensor=[0.5] * len(tj[key]["tensor"]))
+    objs, dic = tt.load([phylo.taxa_json(case), tj])
+    tree = dic["tree"]
+    C["keep_branch_lengths_checks"] = 1
+    C["keep_kinds"] = [case["keep"]]
+    nh = tt.as_np(tree.node_heights, "C06:not-a-tensor:" + tag, "node_heights").astype(float)
+    bl = tt.as_np(tree.branch_lengths(), "C06:not-a-tensor:" + tag, "branch_lengths()").astype(float)
+    nV = len(V)
+    _validate(V, C, case, root, nh.reshape(-1), bl.reshape(-1), None, "keep_branch_lengths (%s Newick)" % case["keep"])
+    for v in V[nV:]:
+        v["sig"] = v["sig"].replace("C06:", "C06:keep_branch_lengths:", 1)
+    if len(V) == nV:
+        if case["param"] == "ratio":
+            r = tt.as_np(dic["tree.ratios"].tensor, "C06:not-a-tensor").astype(float).reshape(-1)
+            rh = float(tt.as_np(dic["tree.root_height"].tensor, "C06:not-a-tensor").reshape(-1)[0])
+            th = phylo.tip_heights(case)
+            if r.size and (not np.all(np.isfinite(r)) or r.min() < 0.0 or r.max() > 1.0) or not rh >= max(th):
+                V.append(tt.viol("C06:keep_branch_lengths:parameters-outside-domain:ratio", "keep_branch_lengths (%s Newick): ratios in [%.6g, %.6g], root height %.6g (oldest tip %.6g)" % (
+                    case["keep"], r.min() if r.size else float("nan"), r.max() if r.size else float("nan"), rh, max(th)), case=case))
+        else:
+            sh = tt.as_np(dic["tree.shifts"].tensor, "C06:not-a-tensor").astype(float).reshape(-1)
+            if not np.all(np.isfinite(sh)) or sh.min() < 0.0:
+                V.append(tt.viol("C06:keep_branch_lengths:parameters-outside-domain:shift", "keep_branch_lengths (%s Newick): smallest height increment %.6g" % (case["keep"], sh.min()), case=case))
+        if case["keep"] == "clock" and np.abs(nh.reshape(-1) - href).max() > 1e-9 * max(1.0, np.abs(href).max()) + 1.01e-6 * n:
+            # (the library keeps every node at least 1e-6 above its children - documented eps - which adds up along a chain of short branches)
+            k = int(np.argmax(np.abs(nh.reshape(-1) - href)))
+            V.append(tt.viol("C06:keep_branch_lengths:heights-differ-from-newick:" + tag, "keep_branch_lengths on a Newick consistent with the dates: node %d at height %.12g, the Newick puts it at %.12g" % (k, nh.reshape(-1)[k], href[k]), case=case))
+    fp = "%s|%s|%s|keep-%s" % (case["newick"], case["dates_mode"], tag, case["keep"])
+    return {"violations": V, "counters": C, "fingerprint": fp, "sample": None}
 
 
 # ---------------------------------------------------------------- the same invariants as an overlay on realistic workloads
